@@ -16,7 +16,7 @@ T = {
  "C03-b": ("the request timeout fires before soft-done was sent: the expiry is lost", "C03.timeout: expiry is recorded and the gate re-evaluated", "caught (seed re-based, see REBASED.txt)"),
  "C04-a": ("the same id re-announced from the same address and port: the serial repeats", "C04.serial_fresh: two announcements get different serials", "first trial undecided (the harness named the removed variable); harness made independent of it and strengthened"),
  "C04-b": ("an unlinked notice for a service the client was once sent to (sent_mask) but no longer awaits (ref_mask): it is applied again", "C04.xq_x_reply", "caught"),
- "C05-a": ("an account stamp of exactly ACCOUNTLEN bytes: the last byte is dropped", "thorough only: C05.xq_x_reply.reply71 (72-byte replies); the quick tier bounds the reply text to 39 bytes", "not caught by the quick tier"),
+ "C05-a": ("an account stamp of exactly ACCOUNTLEN bytes: the last byte is dropped", "C05.xq_x_reply.reply71 (72-byte replies): the account stamp is the one the login service vouched", "first trial missed (quick tier bounded replies to 39 bytes), second undecided (no unwind bound for the strchr/strlcpy the seed introduces); job moved into the quick tier with bounds, then caught"),
  "C05-b": ("a second OK for a client that already has a stamp: +x mode is not sent", "C05.xq_x_reply: mode line per reply kind", "caught"),
  "C06-a": ("a claimed user name of 10 bytes without ident: 11 bytes are sent", "C06.xq_check.*: user name content within USERLEN", "caught"),
  "C06-b": ("a blank ident: the flag promotion happens after the modules were told", "C06.parse_user_info: the hooks' view of the flags (cb_flags_seen)", "first trial missed; strengthened, then caught"),
